@@ -109,6 +109,14 @@ def run(res, rng, tier, model_ok, replay=None):
                 n = chunk_count(len(meta["body"]), threads, 8192)
                 cases.append({"line": line, "expect": exp, "klass": "production-%dKiB" % kb,
                               "key": ("prod", kb, threads) if n >= 2 else None, "nomodel": kb > 256})
+        # recordings longer than one storage block (65535 time steps) per parser thread: the hand-over between
+        # chunks and the block roll-over inside a chunk have to compose; decided by the oracle alone
+        for gap, modes in ([(70000, ["st", "mt:2:0"]), (140000, ["mt:2:0"])] if tier == "quick" else
+                           [(70000, ["st", "mt:2:0", "mt:7:0"]), (140000, ["st", "mt:2:0", "mt:3:0"]), (200000, ["mt:2:0", "mt:3:0"])]):
+            sigs, steps = gen.gap_history(rng, gap, nsteps_after=5)
+            for mode in modes:
+                line, exp, meta = gen.vcd_case(rng, mode, sigs, steps, False, ws="plain", regime="dense")
+                cases.append({"line": line, "expect": exp, "klass": "long-recording", "key": ("long", gap, mode), "nomodel": True})
     vcdfam.run_both(res, cases, "c03", model_ok, timeout=1500)
     res.samples = [c["line"][:300] for c in cases[:2]] + [cases[-1]["line"][:200]]
 
